@@ -347,6 +347,11 @@ fn container_modules(out: &mut Vec<ZooModule>) {
             "Textrefset",
             Ty::Seq { set: true, comps: vec![Comp::new("i", Ty::r("Tsmall")), Comp::new("s", Ty::r("Tplain")), Comp::new("x", Ty::r("Tplain"))], ext_after: Some(2) },
         )
+        // a BIT STRING of more than 16 bits, not a multiple of 8, starting on an octet boundary and FOLLOWED by
+        // non-zero bits: the decoded value must not pick up its neighbour's bits in its last octet
+        .def("Tbits21then", Ty::seq(vec![Comp::new("b", Ty::bits(Size::Fix(21, false))), Comp::new("t", Ty::Bool), Comp::new("i", Ty::int_r(0, 255))]))
+        .def("Tbits70then", Ty::seq(vec![Comp::new("b", Ty::bits(Size::Fix(70, false))), Comp::new("i", Ty::int_r(0, 255))]))
+        .def("Tbitsanythen", Ty::seq(vec![Comp::new("b", Ty::bits(Size::Range(17, Some(23), false))), Comp::new("i", Ty::int_r(0, 255))]))
         .def("Tref1", Ty::r("Tref2"))
         .def("Tref2", Ty::r("Tinner"))
         .def("Tinline", Ty::seq(vec![Comp::new("pick", Ty::choice(vec![Alt::new("i", Ty::int_r(0, 7)), Alt::new("s", ia5(Size::Fix(2, false)))])), Comp::new("en", Ty::enum_n(3)).opt(), Comp::new("sq", Ty::seq(vec![Comp::new("z", Ty::Bool)]))]))
